@@ -1,15 +1,25 @@
-//! Conformance harness (see /verif/CONVENTIONS.md).
-//!   <bin> replay <model> <cases.ndjson> --summary <out.json>
-//!   <bin> record <model> --seed S --out <trace.ndjson> --summary <out.json>
+//! Conformance harness of the `track` group (see /verif/CONVENTIONS.md).
+//!   h-track replay <model> <cases.ndjson> --summary <out.json>
+//!   h-track record <model> --seed S --out <trace.ndjson> --summary <out.json>
 
 use h_common::{tool_error, Args};
+
+mod counter;
+mod peers;
+mod sched;
 
 fn main() {
     let args = Args::from_env();
     let mode = args.pos(0).to_string();
     let model = args.pos(1).to_string();
     h_common::quiet_panics();
-    match (mode.as_str(), model.as_str()) {
+    let s = match (mode.as_str(), model.as_str()) {
+        ("replay", "counter") => counter::replay(&args),
+        ("record", "counter") => counter::record(&args),
+        ("record", "redbclose") => counter::record_redb(&args),
+        ("replay", "peertracker") => peers::replay(&args),
+        ("record", "peertracker") => peers::record(&args),
         _ => tool_error(&format!("unknown mode/model {mode}/{model}")),
-    }
+    };
+    s.write(args.opt("summary").unwrap_or_else(|| tool_error("--summary missing")));
 }
